@@ -9,7 +9,11 @@ from cxxheaderparser.errors import CxxParseError
 TECHNIQUE = 'Lean 4: generic stream well-formedness theorem instantiated at the parser model, fold laws, kernel-decided dispatch tables regenerated from parse(); the per-form round trip is decided by the differential correspondence of the full parser model and an AST-first oracle (not a theorem)'
 LEAN_TARGET = "CxxModel.Props.C01"
 THEOREMS = ["Cxx.C01_dispatch", "Cxx.C01_keep_doxygen", "Cxx.C01_stream_well_formed", "Cxx.C01_fold_cons",
-            "Cxx.C01_fold_append", "Cxx.dispatch_table_eq", "Cxx.rules_supported", "Cxx.C01_each_payload_stored_once", "Cxx.C01_one_callback", "Cxx.foldEvents_total", "Cxx.C01_enumerator_list", "Cxx.C01_enumerator_list_trailing_comma", "Cxx.enumList_last", "Cxx.enum_prefix", "Cxx.C01_using_namespace", "Cxx.C01_namespace_alias", "Cxx.C01_using_namespace_decl", "Cxx.C01_toplevel_using_namespace", "Cxx.C01_toplevel_using_declaration", "Cxx.C01_toplevel_variable", "Cxx.C01_declaration_statement", "Cxx.C01_toplevel_variables", "Cxx.C01_toplevel_typedef", "Cxx.C01_toplevel_forward_decl", "Cxx.C01_toplevel_using_alias", "Cxx.C01_toplevel_enum", "Cxx.C01_toplevel_function", "Cxx.C01_toplevel_function_params"]
+            "Cxx.C01_fold_append", "Cxx.dispatch_table_eq", "Cxx.rules_supported", "Cxx.C01_each_payload_stored_once", "Cxx.C01_one_callback", "Cxx.foldEvents_total", "Cxx.C01_enumerator_list", "Cxx.C01_enumerator_list_trailing_comma", "Cxx.enumList_last", "Cxx.enum_prefix", "Cxx.C01_using_namespace", "Cxx.C01_namespace_alias", "Cxx.C01_using_namespace_decl", "Cxx.C01_toplevel_using_namespace", "Cxx.C01_toplevel_using_declaration", "Cxx.C01_toplevel_variable", "Cxx.C01_declaration_statement", "Cxx.C01_toplevel_variables", "Cxx.C01_toplevel_typedef", "Cxx.C01_toplevel_forward_decl", "Cxx.C01_toplevel_using_alias", "Cxx.C01_toplevel_enum", "Cxx.C01_toplevel_function", "Cxx.C01_toplevel_function_params",
+    "Cxx.C01_whole_source",
+    "Cxx.C01_sequence",
+    "Cxx.C01_variable_sequence",
+]
 ANCHORS = ["parser.py:", "simple.py:", "types.py:", "parserstate.py:", "lexer.py:"]
 RULE = ("AST-first programs: random sequences/nestings of the supported namespace-scope forms (variables with all declarator "
         "shapes and initialisers, functions, typedefs, using x3, enums, forward declarations, namespaces incl. nested/inline/"
@@ -17,6 +21,7 @@ RULE = ("AST-first programs: random sequences/nestings of the supported namespac
         "interleaved decorations); expected ParsedData built by the generator; distinct = distinct program text; "
         "non-trivial = at least 3 declarations")
 CARRIED_BY = {
+    'WHOLE SOURCES through the complete run CxxParser(...).parse() (constructor, on_parse_start, the loop to the end of input): for a visitor that neither raises nor skips, on ANY source whose significant tokens form an `Item` — any number of declarations of the proven forms (variables incl. several declarators and initialisers, typedefs, forward declarations, using x3, enums, functions with parameters, stray `;`) in any order, inside namespaces, extern blocks and classes nested to ANY depth, with any layout and comments — parse() returns normally and the callbacks are on_parse_start followed by exactly one group per declaration, in source order, each in the scope it was written in': 'theorems C01_whole_source (parse_source), C01_sequence (a sequence of items is an item: seq_sound), C01_variable_sequence; the composition framework Theorems/Items.lean (Item, Ran, IterChain, mainLoop_chain, toplevel_eof), the forms as items Theorems/ItemKinds.lean (Item.variable/variables/variableInit/typedef/forwardDecl/usingAlias/usingNamespace/usingDeclaration/enum/function/functionParams/semicolon/ns/externBlock), classes Theorems/Members.lean + MemberKinds.lean (Item.cls), Theorems/WholeParse.lean; non-vacuity: the example after C01_variable_sequence builds the item for `namespace a { T x; ; class C { T f; public: T g; }; }` on a concrete stream',
     "declarations through the whole parse loop AND the recursive type/name core, for every stream and parser state, any length, any layout between the tokens: `T ptr-ops x ;` (T a qualified name of identifiers, ptr-ops empty or any sequence of * / const / volatile starting with *) delivers exactly ONE on_variable with the name x, the type the declarator denotes, no value, the doc text before or else behind the declaration; `using n1::…::nk ;` exactly ONE on_using_declaration with the written name, the access in force and the doc text; a statement with ANY NUMBER of such declarators delivers one on_variable per declarator, in order, each with its own name and type": "theorems C01_toplevel_variable, C01_toplevel_using_declaration, C01_declaration_statement, C01_toplevel_variables, C01_toplevel_typedef (`typedef T ptr-ops x ;`: exactly one on_typedef), C01_toplevel_forward_decl (`class/struct/union a::…::N ;`: exactly one on_forward_decl), C01_toplevel_using_alias (`using A = T ptr-ops ;`: exactly one on_using_alias with the type the abstract declarator denotes), C01_toplevel_enum (`enum [class|struct] N { items } ;`: exactly one on_enum with one enumerator per item and exactly the written value tokens), C01_toplevel_function / C01_toplevel_function_params (`T ptr-ops f ( p1 , … , pn ) ;`, any number of plain parameters: exactly one on_function with one parameter per item, each with its own name and type), C14_variable_initializer (`= value`: exactly the written tokens) (Theorems/VarDecl.lean, VarDecls.lean, TypeName.lean, PqName.lean, FieldForm.lean, UsingDeclForm.lean, TopLevel.lean)",
     "a whole declaration through one iteration of parse()'s own loop (regenerated rules, dispatch table, keep set; active visitor that does not raise here): `using namespace n1::…::nk ;` of any length, after any comments and blank lines, delivers exactly ONE callback on_using_namespace [n1,…,nk] for the innermost open block, consumes exactly the declaration, changes nothing else but the block's recorded location, hands no doc text on": "theorem C01_toplevel_using_namespace (Theorems/TopLevel.lean)",
     "a whole declaration form: `namespace A = [::] n1::…::nk ;` of any length is exactly `read the declaration, then one on_namespace_alias (A, [n1,…,nk])` (or the documented errors)": "theorem C01_namespace_alias (Theorems/NsForm.lean)",
